@@ -1,5 +1,6 @@
 (** C35: printers and the transcript instances of the oracles, used by the correspondence check only.
-    The real decryptor / verifier / decompressor answers recorded by the harness are replayed in call order. *)
+    The real decryptor / decompressor answers recorded by the harness are replayed in call order; the MAC oracle is
+    the ideal MAC over the (seq, packet, MAC) triples the real sender produced. *)
 From Coq Require Import List NArith Bool String.
 From TwLib Require Import Show Seg.
 From C35 Require Import Model.
@@ -30,7 +31,9 @@ Definition run_show
   (c : (N * N) * (list bytes * list (N * bytes * bytes) * list (option bytes)) * list (bytes * bytes) * list bytes)
   : string :=
   let '((bs, ms), (dt, vt, zt), items, chunks) := c in
-  let frames := map (fun it => "S" ++ show_hex (frame (fst it) (snd it)) ++ ":" ++ show_N (pad_len bs (len (fst it)))) items in
+  let frames := map (fun kit => "S" ++ show_hex (frame (fst (snd kit)) (snd (snd kit))) ++ ":"
+                                ++ show_N (pad_len bs (len (fst (snd kit)))) ++ ":" ++ show_nat (fst kit))
+                    (combine (List.seq 0 (List.length items)) items) in
   let '(evs, s) := feed_all (list bytes) (list (option bytes)) dec_t (verify_t vt) decomp_t bs ms
                             (cinit (list bytes) (list (option bytes)) dt zt) chunks in
   String.concat " " (frames ++ map show_ev evs).
